@@ -28,8 +28,9 @@ FORMATS = ["OBJ", "OFF", "PLY", "VTK", "STL", "X3D", "HTML"]
 @st.composite
 def _case(draw):
     convex = draw(st.booleans())
-    c = {"convex_cls": convex, "place": draw(zoo.placement(max_offset=3.0)), "logscale": draw(st.sampled_from([0.0, 0.0, -6.0, -3.0, 3.0, 6.0, 1.0])),
-         "order": draw(st.permutations(FORMATS)), "via_save": draw(st.booleans())}
+    c = {"convex_cls": convex, "place": draw(zoo.placement(max_offset=3.0)), "logscale": draw(st.sampled_from([0.0, 0.0, -6.0, -3.0, 3.0, 6.0, 1.0, -9.0, -12.0])),
+         "order": draw(st.permutations(FORMATS)), "via_save": draw(st.booleans()),
+         "far": draw(st.sampled_from([None, None, None, 5.0, 6.0])), "again": draw(st.booleans())}
     if convex:
         c["shape"] = draw(zoo.convex3d(max_n=16))
     else:
@@ -46,6 +47,8 @@ def _build(case):
         V0, F0 = m["verts"], [list(map(int, f)) for f in m["faces"]]
     V, R, t, s = zoo.apply_placement(case["place"], V0)
     V = V * 10.0 ** case["logscale"]
+    if case.get("far"):  # the same solid 1e5 / 1e6 of its own diameters away from the origin
+        V = V + 10.0 ** case["far"] * 2 * float(np.max(np.linalg.norm(V - V.mean(axis=0), axis=1))) * np.array([0.6, -0.64, 0.48])
     if F0 is None:
         return S.ConvexPolyhedron(V.copy())
     return S.Polyhedron(V.copy(), [np.array(f) for f in F0], True)
@@ -83,6 +86,29 @@ def _run(case, rec):
     before = observe.canonical(observe.observe(shape))
     tmp = tempfile.mkdtemp(prefix="c20_")
     try:
+        _export_all(rec, shape, V, F, E, case, tmp, sig0)
+        for bad in ("obj", "XYZ", "", "Stl"):
+            r = call(shape.save, bad, os.path.join(tmp, "bad.out"))
+            rec.check(isinstance(r, Raised) and r.type == "ValueError", "unknown_filetype_raises_ValueError", dict(sig0, filetype=bad), got=repr(r)[:80])
+        after = observe.canonical(observe.observe(shape))
+        observe.compare(rec, before, after, maxnorm(V), True, sig0, "export_leaves_shape_", rtol=1e-12)
+        if case.get("again"):
+            # the same object, changed in place, exported again: the files describe the object as it is now
+            size = 2 * float(np.max(np.linalg.norm(V - V.mean(axis=0), axis=1)))
+            r1 = call(setattr, shape, "volume", 8.0 * float(shape.volume))
+            r2 = call(setattr, shape, "centroid", np.asarray(shape.centroid, dtype=float) + np.array([0.5, -0.25, 1.0]) * size)
+            if isinstance(r1, Raised) or isinstance(r2, Raised):
+                rec.fail("mutation_between_exports_raised", sig0, r1=repr(r1)[:80], r2=repr(r2)[:80])
+            else:
+                V2 = np.array(shape.vertices, dtype=float)
+                rec.label("exported_again_after_change")
+                _export_all(rec, shape, V2, F, E, case, tmp, dict(sig0, round="after_change"))
+    finally:
+        shutil.rmtree(tmp, ignore_errors=True)
+
+
+def _export_all(rec, shape, V, F, E, case, tmp, sig0):
+    if True:
         for fmt in case["order"]:
             sig = dict(sig0, fmt=fmt)
             path = os.path.join(tmp, "shape." + fmt.lower())
@@ -130,13 +156,6 @@ def _run(case, rec):
             if fmt == "OFF":
                 rec.check((notes["nv"], notes["nf"]) == (len(V), len(F)), "declared_counts", sig, got=[notes["nv"], notes["nf"]])
                 rec.check(notes["ne"] == len(E), "declared_edge_count", sig, got=notes["ne"], want=len(E))
-        for bad in ("obj", "XYZ", "", "Stl"):
-            r = call(shape.save, bad, os.path.join(tmp, "bad.out"))
-            rec.check(isinstance(r, Raised) and r.type == "ValueError", "unknown_filetype_raises_ValueError", dict(sig0, filetype=bad), got=repr(r)[:80])
-    finally:
-        shutil.rmtree(tmp, ignore_errors=True)
-    after = observe.canonical(observe.observe(shape))
-    observe.compare(rec, before, after, maxnorm(V), True, sig0, "export_leaves_shape_", rtol=1e-12)
 
 
 def _check_stl(rec, text, V, F, sig):
@@ -168,7 +187,9 @@ def _check_stl(rec, text, V, F, sig):
             return
         nn = np.asarray(n, dtype=float)
         c = np.linalg.norm(np.cross(nn, cr))
-        if not rec.check(np.dot(nn, cr) > 0 and c <= 1e-9 * np.linalg.norm(nn) * np.linalg.norm(cr), "stl_normal_outward_parallel", sig,
+        edge = min(np.linalg.norm(P[1] - P[0]), np.linalg.norm(P[2] - P[1]), np.linalg.norm(P[0] - P[2]))
+        tol_par = 1e-9 + 1e3 * 2.0**-52 * maxnorm(V) / edge  # a normal from coordinates of size L carries eps*L/edge
+        if not rec.check(np.dot(nn, cr) > 0 and c <= tol_par * np.linalg.norm(nn) * np.linalg.norm(cr), "stl_normal_outward_parallel", sig,
                          normal=n, geometric=cr):
             return
         for a, b in zip(ids, ids[1:] + ids[:1]):
